@@ -258,6 +258,11 @@ def programs(tier: str, seed: int) -> Tuple[List[dict], Dict[str, Any]]:
         add("Child", fam, t)
     for fam, t in ticket_atoms():
         add("Ticket", fam, t)
+    # deep boolean skeletons (every association shape of 3 connectives, and/or assignment, optional not) over atoms
+    rel_atoms = [cmp_("gt", F("n"), K), lam("any", ["children"], "c", cmp_("gt", P("c", "k"), K)), cmp_("eq", F("name"), S("a")),
+                 lam("any", ["tags"]), cmp_("eq", F("n"), ("null",))]
+    for fam, t in G.deep_bool((3,), rel_atoms, rng, {3: 40 if quick else 320}):
+        add("Parent", fam, t)
     if not quick:
         base = list(items)
         for it in base:
